@@ -615,6 +615,12 @@ def oracle_surveyor(case, obs):
                     tok = w[:w.index("]") + 1]
                     body = w[w.index("]") + 1:]
                     injected.setdefault((tok, body), []).append(clock)
+                    # a response to a live survey on which a receive is pending is handed to that receive at once
+                    for tg, c in cur.items():
+                        if body_rid.get(c["body"]) == tok and clock < c["expire"] and not c["dead"]:
+                            waiting = sorted(a for a, (g, _) in pend.items() if g == tg)
+                            if waiting and st == "o" and not any(x in waiting and rv == 0 for (x, rv, e) in o["done"]):
+                                return (k, "response %s%s to the live survey of %s (receive a%d pending, deadline not passed) was not delivered" % (tok, body, tg, waiting[0]))
         # --- receives
         if op in ("recv", "recvnb"):
             tg = t[1]
